@@ -3,6 +3,7 @@ mod checks_outage;
 mod checks_pure;
 mod checks_s;
 mod checks_t;
+mod checks_w;
 mod explore;
 mod forgery;
 mod report;
@@ -23,6 +24,7 @@ fn main() {
         let code = match v["replay"]["history"]["engine"].as_str() {
             Some("T") => tmodel::replay(&v),
             Some("X") => checks_pure::c19_replay(&v),
+            Some("W") => checks_w::replay(&v),
             _ if v["replay"]["engine"].as_str() == Some("crash") => checks_crash::replay(&v),
             _ if v["replay"]["engine"].as_str() == Some("S") => checks_s::replay(&v),
             _ if v["replay"]["engine"].as_str() == Some("outage") => checks_outage::replay(&v),
@@ -48,6 +50,7 @@ fn main() {
         "C11" => checks_s::c11(a.tier),
         "C12" => checks_outage::c12(a.tier),
         "C17" => checks_pure::c17(a.tier),
+        "C18" => checks_w::c18(a.tier),
         "C19" => checks_pure::c19(a.tier),
         "C20" => checks_pure::c20(a.tier),
         _ => {
